@@ -35,10 +35,63 @@ def generate(rng, tier):
     for w in range(worlds):
         nm, sc = suites.dwarf_world(rng, "a64", nmods=3, nf=5, nprobes=80, policy="may" if w % 2 else "must")
         out.append(("%s-%d" % (nm, w), sc))
+    # a stack whose saved return addresses carry authentication bits (the null that ends it included: a root frame
+    # compiled with pacibsp signs a null lr) unwinds to the same frames as the unsigned stack, on every path
+    for w in range(8 if tier == "quick" else 80):
+        s = Script("a64", "may" if w % 2 else "must")
+        path = ["rule", "fp", "generic", "nomodule"][w % 4]
+        mask = [(1 << 48) - 1, (1 << 40) - 1, (1 << 52) - 1, (1 << 47) - 1][(w // 4) % 4]
+        sig = (0x5a5a5a5a5a5a5a5a | (1 << 63)) & ~mask & M64
+        frame = 32 if path != "generic" else 40
+        row = {"rule": dict(cfa=("r", 31, 32), fp=("s",), ra=("o", -8)),
+               "fp": dict(cfa=("r", 29, 16), fp=("o", -16), ra=("o", -8)),
+               "generic": dict(cfa=("r", 31, 40), fp=("s",), ra=("o", -8)),
+               "nomodule": None}[path]
+        if row:
+            s.module_dwarf("M", 0x10000, 0x20000, 0x10000, 0, ["hdr", "eh", "debug"][w % 3],
+                           [dict(start=0x1000, len=0x1000, rows=[(0, row)])], rng)
+        s.add("new U")
+        if row:
+            s.add("add U M")
+        depth = rng.range(1, 5)
+        base = 0x7000
+        plain, signed = {}, {}
+        for a in range(base, base + 0x400, 8):
+            plain[a] = signed[a] = 0x11800 + (a & 0xff)
+        ras = [0x11100 + 0x10 * d for d in range(depth)] + [0]
+        if path in ("fp", "nomodule"):
+            fp = base + 0x40
+            for d, ra in enumerate(ras):
+                plain[fp] = signed[fp] = fp + 0x20
+                plain[fp + 8] = ra; signed[fp + 8] = ra | sig
+                fp += 0x20
+            regs = lambda lr: s.regs_a64(mask, lr, base, base + 0x40)
+        else:
+            sp = base
+            for d, ra in enumerate(ras):
+                plain[sp + frame - 8] = ra; signed[sp + frame - 8] = ra | sig
+                sp += frame
+            regs = lambda lr: s.regs_a64(mask, lr, base, 0)
+        s.mem("P", sorted(plain.items())); s.mem("Q", sorted(signed.items()))
+        lines = []
+        for mid, lr in (("P", 0x4444), ("Q", 0x4444 | sig)):
+            s.add("newcache C")
+            lines.append(s.add("trace U C 0x11050 %s %s %d" % (regs(lr), mid, depth + 4), tag="twin:%s:%d" % (path, mask.bit_length())))
+        s.meta[lines[0]] = {"signed_twin": lines[1], "depth": depth, "deps": [lines[1]]}
+        out.append(("signedtwin-%s-%d" % (path, w), s))
     return out
 
 def judge(script, impl):
     bad = []
+    for ln, m in script.meta.items():
+        if "signed_twin" in m and impl.get(ln) and impl.get(m["signed_twin"]):
+            a, b = impl[ln], impl[m["signed_twin"]]
+            ia = [x.strip() for x in a[5:].split("|")]; ib = [x.strip() for x in b[5:].split("|")]
+            # the first item shows the registers as given (lr signed or not): compared from the first step on
+            if ia[1:] != ib[1:]:
+                bad.append((ln, "the stack with signed return addresses does not unwind like the unsigned one:\nunsigned: %s\nsigned  : %s" % (a[:400], b[:400])))
+            elif ia[-1] != "ok none" or sum(1 for x in ia if x.startswith("ok ra")) != m["depth"]:
+                bad.append((ln, "the unsigned stack was not walked to its null end (%d frames): %s" % (m["depth"], a[:400])))
     for ln, line in sorted(impl.items()):
         toks = script.lines[ln - 1].split()
         op = toks[0]
@@ -64,6 +117,8 @@ def judge(script, impl):
             inmask = int(toks[toks.index("exec") + 1], 16) if False else None
             mask = rg[0]
             if o[0] == "ok" and o[1] == "some":
+                if o[2] == 0:
+                    bad.append((ln, "a null return address (authentication bits only) was reported as a frame instead of ending the stack: " + line))
                 if o[2] & ~mask & M64:
                     bad.append((ln, "reported return address has bits outside the mask: " + line))
                 if rg[1] != o[2]:
